@@ -90,7 +90,9 @@ void vx_heap_free(void* p) {
 }
 size_t block_n;
 void* vx_block_alloc(size_t n) { __CPROVER_assert(n == q_cap, "C24.preallocate: the block has capacity() objects (every pointer put into the free list must lie inside it)"); block_n = n; return vx_block; }
-void vx_obj_constructed(void* p) {} void vx_obj_destroyed(void* p) {}
+void vx_obj_constructed(void* p) {}
+/* the destructor of a pooled object runs while the caller still holds it: once the object is back in the free list (or with another holder) it is no longer the caller's to touch */
+void vx_obj_destroyed(void* p) { int* s = state_of(p); __CPROVER_assert(s != 0 && *s == MINE, "C24.deallocate: the object is destroyed before it is made available again, not after (a second holder may already own it)"); }
 
 void w_set_block(void*, size_t);
 void* w_vqp_allocate(void); void w_vqp_deallocate(void*); void w_vqp_construct(size_t); void* w_vqp_first(void); void* w_vqp_last(void);
